@@ -167,6 +167,36 @@ func registerDerived() {
 		Rule: "one case = one seeded simulated run (cdp, lend or dex workload) in which, interleaved with the normal traffic, non-owner actors send every message type that names someone else's position (vault withdraw/draw/close/deposit-and-draw, locker withdraw/close, lend withdraw/close and borrowing against a foreign lend position, borrow draw/close/repay-withdraw/deposit-borrow, order cancel), random actors send MsgKillSwitch, and all 20 custom contract message variants are dispatched through the real CustomMessenger from designated contracts of this and of the other network and from strangers, under chain ids comdex-1, comdex-test3 and sim-1; oracle: non-owner / non-admin / stranger attempts must fail and leave every store except the signer's sequence byte-identical; distinct = distinct digest of the event stream; non-trivial = at least one non-owner attempt was evaluated",
 		Assume: []string{"a transaction signed by one key but carrying another address in its From field is rejected by signature verification (real ante handler runs); attempts are therefore made under the attacker's own address naming the victim's position id", "deposit and repay by a non-owner are not attempted: they do not move, reduce or close the position", "farm positions and limit bids are keyed by the signer's address and cannot name another party", "on chain ids other than comdex-1 / comdex-test3 only the kill switch admin list is checked (the contract guards are network specific by their own text)"},
 	}
+	props["C14"] = &PropSpec{
+		ID: "C14", Level: "exploration",
+		Oracles:    func(w *World) []Oracle { return []Oracle{&c14Oracle{}} },
+		Quick:      Budget{Runs: 160, MaxEvents: 180},
+		Thorough:   Budget{Runs: 6000, MaxEvents: 450},
+		Essential:  []string{"c14.message_under_breaker"},
+		BatchProbe: []string{"c14.message_under_breaker", "c14.block_under_breaker", "c14.message_after_esm", "c14.message_with_inactive_price"},
+		TweakCfg: func(r *Rng, cfg *Config) {
+			if cfg.Scenario == "cdp+ctl" && r.Chance(2, 3) {
+				cfg.Knobs["esm"] = 1
+			}
+			if cfg.Knobs["pkt_fault"] == 0 && r.Bool() {
+				cfg.Knobs["pkt_fault"] = 100
+			}
+		},
+		Rule: "one case = one seeded simulated run (cdp or lend workload) in which the configured admin flips per-app circuit breakers, users deposit to and execute the emergency shutdown (cool-off 30 s..1 day, passed or not through clock gaps), and packet fates deactivate prices; every vault / stable-mint / locker / lend message is classified from the statement (open-enlarge-draw, vault repay/close/withdraw, mints debt, collateral withdrawal) and its outcome compared with the control state read just before it; block hooks: a locked vault or surplus/debt lot created in a BeginBlock for an app whose breaker is on is a violation; cells the statement leaves open (locker withdraw/close, lend withdraw/close/repay, vault repay/close after shutdown, keeper liquidate messages) are never checked; distinct = distinct digest of the event stream; non-trivial = at least one classified message was delivered while its app's breaker was on",
+		Assume: []string{"a refused message leaves no state change because the real BaseApp transaction wrapper reverts failed messages (checked byte-for-byte under C12)", "required price = collateral price, plus debt price when the product uses the oracle for the debt asset"},
+	}
+	for _, base := range []string{"cdp", "lend"} {
+		if scenarios[base] != nil {
+			ctl := derive(base, "+ctl", c14Gens)
+			props["C14"].Scenarios = append(props["C14"].Scenarios, ctl)
+			// block hooks, replicas and export/import also run under breaker / emergency shutdown
+			props["C16"].Scenarios = append(props["C16"].Scenarios, ctl)
+			props["C15"].Scenarios = append(props["C15"].Scenarios, derive(ctl, "+inject", func(b func(w *World) []OpGen) func(w *World) []OpGen {
+				return c15Gens(func(w *World) []OpGen { return append(b(w), c15EnvGens()...) })
+			}))
+			props["C20"].Scenarios = append(props["C20"].Scenarios, derive(ctl, "+export", c20Gens))
+		}
+	}
 	for _, base := range []string{"cdp", "dex", "lend"} {
 		if scenarios[base] == nil || scenarios[base].Gens == nil {
 			continue
